@@ -28,3 +28,15 @@ pub mod pipeline;
 pub mod store;
 pub mod tirb;
 pub mod txdecode;
+
+/// serde adapter: i128 as decimal string (serde_json cannot carry integers beyond 64 bits)
+pub mod i128_str {
+    use serde::{Deserialize, Deserializer, Serializer};
+    pub fn serialize<S: Serializer>(v: &i128, s: S) -> Result<S::Ok, S::Error> {
+        s.serialize_str(&v.to_string())
+    }
+    pub fn deserialize<'de, D: Deserializer<'de>>(d: D) -> Result<i128, D::Error> {
+        let s = String::deserialize(d)?;
+        s.parse().map_err(serde::de::Error::custom)
+    }
+}
